@@ -187,7 +187,9 @@ class Ctx:
         if self.replaying:
             return
         if self.labels.get(label, 0) < minimum:
-            if self.failures or any(k.startswith('budget_hit:') for k in self.labels):
+            known = load_known()
+            unlisted = [sig for sig in self.failures if match_known(self.prop, sig, known) is None]
+            if unlisted or any(k.startswith('budget_hit:') for k in self.labels):
                 # violations cut cases short (or the tier budget ran out): report, don't mask
                 self.notes.append(f'class {label!r} reached only {self.labels.get(label, 0)} < {minimum} times')
                 return
